@@ -27,10 +27,13 @@ pub enum Call {
     EncodeWrite64(Case),
     /// encode, serialise, parse with the crate's parser, re-serialise
     EncodeParse(Case),
-    /// a header whose write fails with a range error (start sample number of 2^36)
+    /// a frame header written into a sink that refuses its first operation
     FailingHeaderWrite,
     /// a stream written into a sink that fails on its k-th operation
     FailingSinkWrite(Case, usize),
+    /// a stream written into a sink that fails on the j-th operation counted from the end of the complete
+    /// write (0 = the CRC-16 of the last frame, 1 = the body of the last frame, ...)
+    FailingSinkWriteFromEnd(Case, usize),
 }
 
 fn alphabet() -> Vec<(String, Call)> {
@@ -106,6 +109,9 @@ fn alphabet() -> Vec<(String, Call)> {
     v.push(("failing_header_write".into(), Call::FailingHeaderWrite));
     v.push(("failing_sink_write_k3".into(), Call::FailingSinkWrite(base.clone(), 3)));
     v.push(("failing_sink_write_k40".into(), Call::FailingSinkWrite(b(0), 40)));
+    v.push(("failing_sink_write_last_crc".into(), Call::FailingSinkWriteFromEnd(base.clone(), 0)));
+    v.push(("failing_sink_write_last_body".into(), Call::FailingSinkWriteFromEnd(base.clone(), 1)));
+    v.push(("failing_sink_write_body_before_last".into(), Call::FailingSinkWriteFromEnd(base.clone(), 3)));
     v
 }
 
@@ -135,12 +141,23 @@ fn exec(call: &Call) -> Result<Vec<u8>, String> {
                 subject::stream_bytes(&parsed).map_err(|e| e.describe())
             }
             Call::FailingHeaderWrite => {
-                let h = FrameHeader::new(192, ChannelAssignment::Independent(2), 16, 44100, FrameOffset::StartSample(1u64 << 36)).map_err(|e| format!("{e:?}"))?;
-                let mut sink = flacenc::bitsink::ByteSink::new();
+                let h = FrameHeader::new(192, ChannelAssignment::Independent(2), 16, 44100, FrameOffset::StartSample(123_456_789)).map_err(|e| format!("{e:?}"))?;
+                let mut sink = FailingSink::new(0, Flavour::Full);
                 Ok(match h.write(&mut sink) {
                     Ok(()) => b"header write succeeded".to_vec(),
                     Err(_) => b"header write failed".to_vec(),
                 })
+            }
+            Call::FailingSinkWriteFromEnd(c, j) => {
+                let s = subject::encode(c, &c.input.samples(), Mode::St).map_err(|e| e.describe())?;
+                let mut dry = FailingSink::new(usize::MAX, Flavour::Full);
+                s.write(&mut dry).map_err(|e| format!("{e:?}"))?;
+                let k = dry.ops.saturating_sub(1 + *j);
+                let mut sink = FailingSink::new(k, Flavour::Full);
+                let r = s.write(&mut sink);
+                let mut out = crate::bitmodel::bytes_of_bits(&sink.inner.bits);
+                out.push(u8::from(r.is_ok()));
+                Ok(out)
             }
             Call::FailingSinkWrite(c, k) => {
                 let s = subject::encode(c, &c.input.samples(), Mode::St).map_err(|e| e.describe())?;
